@@ -334,6 +334,30 @@ PROPS['C14'] = dict(
 )
 
 NOT_APPLICABLE = {}
+
+# what each check claims, in our own words (MANIFEST level_claimed.text)
+LEVEL_TEXT = {
+ 'C01': 'Proof (model) + tie: order-independence theorems for every map the commit path consults and a deliver function that does not read node configuration, a regenerated census of nondeterminism sources in consensus packages (must equal the audited list), and twin / second-process re-execution of the same history on the real application (results, events and app hashes compared). The theorems are unbounded; that the real code has no other nondeterminism source is the census plus the re-execution, not a proof.',
+ 'C02': 'Partial proof: simulation theorems between the context StateDB model and a value-semantic go-ethereum-style reference for the write primitives, regenerated facts about the pinned fork, and differential execution of the real ApplyMessage against go-ethereum core.ApplyMessage on mirrored states. Opcode semantics are shared fork code, not modelled.',
+ 'C03': 'Proof over the StateDB / call-tree models (snapshot, revert, nested frames: a reverted frame leaves no trace in any store the model carries) + differential correspondence of the real StateDB and of real call trees through the interpreter.',
+ 'C04': 'Proof over the block / fee model (supply delta of every outcome class is exactly the burnt amount) + E-block (real FinalizeBlock, supply and balances observed per transaction) + differential against go-ethereum.',
+ 'C05': 'Proof over the block model: for each of the seven outcome classes the sender pays gas used x effective price (or nothing when refused); tied by E-block on real multi-transaction blocks.',
+ 'C06': 'Proof over the block / ante models (sequence +1 exactly on admission, replay refused, foreign chain / unprotected refused) + E-block and E-ante on the real ante handlers.',
+ 'C07': 'Proof over the ante-lane model (decision table of the dual-lane handler incl. nested authz) with regenerated handler-chain facts + E-ante differential on the real handler.',
+ 'C08': 'Proof over the query model (binary search of EstimateGas without monotonicity assumption; commit=false writes nothing) + E-binsearch and E-query on the real Query / CheckTx / Simulate paths with whole-store digests.',
+ 'C09': 'Proof: the base-fee function is transcribed and proved against EIP-1559 (exact increase / decrease, floor, totality for every MaxGas) with regenerated constants; tied by differential runs of the real keeper and by admission oracles in E-block.',
+ 'C10': 'Proof over the ERC-20 precompile model (each method is exactly the bank operation; failing calls are no-ops); the allowance clause is proved only per unscoped table (known finding F5) and stated as _partial; tied by E-erc20 / E-calltree.',
+ 'C11': 'Thin proof + twin execution: the dispatch model fixes who acts for whom and which logs are emitted (theorems for every call and every signature input); the effect on staking / distribution / bank is compared byte for byte with the SDK message servers on every call of generated histories.',
+ 'C12': 'Proof over the call-tree model for STATICCALL edges, with the full statement refuted by a witness (known finding F6, defect in the pinned fork); regenerated facts: declared read-only methods reach no write API, writers charge gas; E-calltree, static probes with all-store dumps, E-staking view checks.',
+ 'C13': 'Proof over the block model (tx index, log index, cumulative gas, status, bloom slots consistent for every block) + E-block on the real FinalizeBlock.',
+ 'C14': 'Proof over the indexer model (lookups agree with positions, idempotent, restart rule) with the restart clause partial (known finding F12) + the real KVIndexer, RPC backend and indexer service over recorded blocks.',
+ 'C15': 'Proof over the world / StateDB models (protected accounts survive every committed operation sequence; locked coins unspendable) + E-statedb differential incl. delayed, continuous and periodic vesting accounts.',
+ 'C16': 'Proof over the vauth model (a stored proof is unforgeable relative to ideal recovery, final, and gates vesting creation) + E-vauth / E-ante on real blocks.',
+ 'C17': 'Proof: registry invariant by induction over every operation sequence (type immutable, one ERC-20 per denom, version monotone, exposure = enabled set) + E-cpc on the real message server, keeper and both EVM construction paths.',
+ 'C18': 'Proof over the genesis model for what the modules export, with the lossy parts refuted by witnesses (known finding F10) + E-genesis: export, InitChain of a fresh application, second export.',
+ 'C19': 'Partial proof: decision logic of VerifySignature over ideal ECDSA / Keccak (one key, one message), structural lemmas of the EIP-712 rendering; the rendering itself is an executable Lean model (with Keccak-256 in Lean) compared digest for digest with the Go code. Unforgeability, collision resistance and BIP-32 conformance are assumptions / tests.',
+ 'C20': 'Partial proof: isolation of refused transactions and totality of end-of-block processing in the models, invariant proof of the event system channel protocol for every schedule (with regenerated lock-order facts and schedule replay on the real goroutines). Crash-freedom of decoding and execution for arbitrary bytes is explored (E-crash), not proved.',
+}
 HOOK_COMMITS = ['6892cbf4753434ae03c9f54a2d1a2dc6d5dfb558', '48ae13975a8de05cf1d0c8f44e7e45cc6a4855be']
 
 
